@@ -99,7 +99,9 @@ def flags(variant='full', extra=()):
     """the real build's flags (taken from `ninja -t compdb` of the pinned build: -std=c++14,
     -I include, -I <generated>/include, Boost DYN_LINK defines, -isystem OpenMPI) with -UNDEBUG so
     that asserts are part of the analysed program"""
-    f = ['-std=c++14', '-I' + os.path.join(REPO, 'include'), '-I' + config_dir(variant)]
+    pre = [e[len('first:'):] for e in extra if e.startswith('first:')]
+    extra = [e for e in extra if not e.startswith('first:')]
+    f = ['-std=c++14'] + pre + ['-I' + os.path.join(REPO, 'include'), '-I' + config_dir(variant)]
     f += BOOST_DEFS
     for inc in MPI_INC:
         f += ['-isystem', inc]
